@@ -23,7 +23,7 @@ LEVEL = "exploration"
 DECIDING = ["C08.digest_equals_fresh_process", "C08.rng_trace", "C08.prefix"]
 RULE = ("histories = random interleavings (length 6-20) of {construct (alg,N) [optionally with time_generation=True, optionally after building a larger polytope grid of the same "
         "algorithm], call getter g on live object k (repeats allowed; exact and approximate areas in any order), np.random.seed(s), draw r numbers from the global generator, "
-        "get_convex_hulls (in-place helper-point filter), PositionGrid/FullGrid getters}; every getter result is compared bitwise with the "
+        "get_convex_hulls (in-place helper-point filter), PositionGrid getters, FullGrid getters incl. get_full_prefactors}; every getter result is compared bitwise with the "
         "digest from a fresh interpreter; prefix pairs (N, N+M) for ico, cube3D, cube4D. 3-D N<=60 (quick) / <=200 (thorough), 4-D N<=16 / "
         "<=40. Non-trivial = history with >=2 constructions and >=1 reseed/draw between constructions or getters; distinct by history digest")
 ASSUMPTIONS = ["bit comparison via md5 of the raw arrays (sparse: format, index arrays, data)", "BLAS/OMP threads fixed to 1 in both processes",
@@ -35,6 +35,7 @@ SHARD_TIMEOUT = {"quick": 1200, "thorough": 7200}
 G3 = ("grid", "adjacency", "borders", "distances", "areas", "areas_approx")
 G4 = ("grid", "grid_full", "adjacency", "borders", "distances", "volumes")
 GP = ("pos_array", "pos_volumes", "pos_adjacency", "pos_borders", "pos_distances")
+GF = ("full_array", "full_volumes", "full_adjacency", "full_borders", "full_distances", "full_prefactors")
 
 
 # --------------------------------------------------------------------------------------- digests (used by both processes)
@@ -65,6 +66,10 @@ def build(kind, alg, N, t=None, timed=False):
     if kind == "4d":
         from molgri.space.rotobj import SphereGrid4DFactory
         return SphereGrid4DFactory.create(alg_name=alg, N=N, **kw)
+    if kind == "full":
+        from molgri.space.fullgrid import FullGrid
+        b, tt = t.split("|")
+        return FullGrid(b, f"{alg}_{N}", tt, factor=3)
     from molgri.space.fullgrid import PositionGrid
     return PositionGrid(o_grid_name=f"{alg}_{N}", t_grid_name=t)
 
@@ -80,13 +85,17 @@ def call(kind, obj, g):
                 "adjacency": lambda: obj.get_voronoi_adjacency(), "borders": lambda: obj.get_cell_borders(),
                 "distances": lambda: obj.get_center_distances(),
                 "volumes": lambda: obj.get_spherical_voronoi().get_voronoi_volumes()}[g]()
+    if kind == "full":
+        return {"full_array": lambda: obj.get_full_grid_as_array(), "full_volumes": lambda: np.asarray(obj.get_total_volumes()),
+                "full_adjacency": lambda: obj.get_full_adjacency(), "full_borders": lambda: obj.get_full_borders(),
+                "full_distances": lambda: obj.get_full_distances(), "full_prefactors": lambda: obj.get_full_prefactors()}[g]()
     return {"pos_array": lambda: obj.get_position_grid_as_array(), "pos_volumes": lambda: obj.get_all_position_volumes(),
             "pos_adjacency": lambda: obj.get_adjacency_of_position_grid(), "pos_borders": lambda: obj.get_borders_of_position_grid(),
             "pos_distances": lambda: obj.get_distances_of_position_grid()}[g]()
 
 
 def getters(kind):
-    return {"3d": G3, "4d": G4, "pos": GP}[kind]
+    return {"3d": G3, "4d": G4, "pos": GP, "full": GF}[kind]
 
 
 def golden_main(spec_path, out_path):
@@ -195,16 +204,21 @@ def make_history(rng, tier):
             alg = rng.choice(list(POLY))
             kind = POLY[alg]
             N = rng.randint(1, n3) if kind == "3d" else rng.randint(1, n4)
-            if rng.random() < 0.25 and kind == "3d":
+            r2 = rng.random()
+            if r2 < 0.2 and kind == "3d":
                 kind = "pos"
                 N = max(N, 4)
                 t = rng.choice(["[0.1, 0.2]", "[0.3, 0.1, 0.25]", "linspace(0.2, 0.4, 3)"])
+            elif r2 < 0.35 and kind == "3d":
+                kind = "full"          # a full SE(3) grid: every matrix getter (and the in-place consumer get_full_prefactors) must be pure
+                N = min(max(N, 4), 14)
+                t = rng.choice(["4", "randomQ_5", "1", "cube4D_8"]) + "|" + rng.choice(["[0.1, 0.2]", "[0.3, 0.1, 0.25]"])
             else:
                 t = None
             if alg in ("ico", "cube3D", "cube4D") and rng.random() < 0.3:
                 big = N + rng.randint(1, 30 if POLY[alg] == "3d" else 8)
                 ops.append(["construct_discard", POLY[alg], alg, big, None])
-            ops.append(["construct", kind, alg, N, t] + (["timed"] if kind != "pos" and rng.random() < 0.25 else []))
+            ops.append(["construct", kind, alg, N, t] + (["timed"] if kind in ("3d", "4d") and rng.random() < 0.25 else []))
             objs.append((kind, alg, N, t))
         elif r < 0.7:
             k = rng.randrange(len(objs))
